@@ -20,7 +20,7 @@ Outcomes == {"result", "error"}            \* the only terminal states of a call
 
 RealtimeFaults == {"none", "truncate", "bitflip", "byteflip", "splice", "insert-random", "delete-range", "duplicate-range",
                    "length-prefix-edit", "wire-type-edit", "empty", "random-bytes", "ext-field-garbage", "header-only", "nested-depth", "extreme-numbers"}
-StaticContainerFaults == {"none", "truncate", "bitflip", "splice", "empty", "random-bytes", "not-a-zip", "central-directory-edit"}
+StaticContainerFaults == {"none", "truncate", "bitflip", "splice", "empty", "random-bytes", "not-a-zip", "central-directory-edit", "declared-size-lie"}
 StaticMemberFaults == {"bare-quote", "ragged-row-long", "ragged-row-short", "header-only", "empty-member", "missing-required-column",
                        "missing-required-file", "duplicate-header", "invalid-utf8", "nul-bytes", "long-field", "bitflip", "truncate",
                        "cr-only-line-endings", "bom-only", "swap-two-files", "duplicate-rows", "shuffle-rows"}
